@@ -939,6 +939,10 @@ def _lex_lt(a, b):
 
 class SymByteArray(SymBytes):
     def __init__(self, items=()):
+        if isinstance(items, SymInt):
+            items = [0] * items.__index__()
+        elif isinstance(items, builtins.int):
+            items = [0] * items
         if isinstance(items, SymBytes):
             items = items.items
         super().__init__(items)
